@@ -47,6 +47,11 @@ type SpecDef struct {
 	Src    string
 	Schema bool // a trusted axiom schema: may only be used through `use` clauses; listed as an assumption
 	Uses   int
+	// Opaque: applications are kept as an uninterpreted application over the arguments and the memories the body
+	// reads; the defining equation is supplied only for applications outside any quantifier (ground unfolding).
+	Opaque     bool
+	opaqueKeys []string
+	opaqueDone bool
 }
 
 type FuncContract struct {
@@ -163,12 +168,21 @@ func (cs *Contracts) load(path string) error {
 			}
 			cs.GhostVars[f[0]] = te
 			cs.GhostPkg[f[0]] = pkg
-		case "spec", "specfun", "axiomschema":
+		case "spec", "specfun", "axiomschema", "opaque":
+			isOpaque := false
+			if word == "opaque" {
+				if !strings.HasPrefix(rest, "spec ") {
+					return fmt.Errorf("%s:%d: opaque must be followed by spec", path, l.line)
+				}
+				rest = strings.TrimSpace(strings.TrimPrefix(rest, "spec "))
+				isOpaque = true
+			}
 			sd, err := parseSpecDef(rest, word == "specfun")
 			if err != nil {
 				return fmt.Errorf("%s:%d: %v", path, l.line, err)
 			}
 			sd.Schema = word == "axiomschema"
+			sd.Opaque = isOpaque
 			sd.Pkg = pkg
 			cs.Specs[sd.Name] = sd
 			cur, loop = nil, nil
